@@ -241,9 +241,34 @@ def run(chk, repo):
     ig = repo.func('cli.index_gvf:index_gvf')
     vg = repo.func('seqvar.VariantRecordPoolOnDisk:VariantRecordPoolOnDisk.validate_gvf_index')
     chk.uses(ig, vg)
-    wck = any('# CHECKSUM={sum_val}\n' == fstring_text(c.args[0]) for c in G.find_calls(ig.node, 'write') if c.args)
-    rck = "line.startswith('CHECKSUM=')" in unparse(vg.node) and "line.rstrip().lstrip('# ')" in unparse(vg.node)
-    chk.ob('C13.d', 'checksum key written and read', ig.where, wck and rck, f"writer {wck}, reader {rck}", key='seqvar::checksum-key')
+    # writer: `<prefix>{checksum}\n`; reader: a comment line, stripped of '# ', that starts with the same key, value after '='
+    from sa import sem as _s13
+    wpre = None
+    for c in G.find_calls(ig.node, 'write'):
+        if c.args and isinstance(c.args[0], ast.JoinedStr):
+            v = c.args[0].values
+            if len(v) >= 2 and isinstance(v[0], ast.Constant) and 'CHECKSUM' in str(v[0].value) and isinstance(v[1], ast.FormattedValue) \
+                    and (len(v) == 3 and isinstance(v[2], ast.Constant) and v[2].value == '\n'):
+                wpre = v[0].value
+    wck = wpre is not None and wpre.startswith('#') and wpre.endswith('=')
+    vchains = _s13.block_chains(vg.node)
+    rkeys, rvals = [], []
+    for st in ast.walk(vg.node):
+        if not isinstance(st, ast.stmt):
+            continue
+        own = [st.test] if isinstance(st, (ast.If, ast.While)) else ([st] if _s13.own_stmt(st) else [])
+        for root in own:
+            for c in ast.walk(root):
+                if isinstance(c, ast.Call) and isinstance(c.func, ast.Attribute) and c.func.attr == 'startswith' and len(c.args) == 1 \
+                        and isinstance(c.args[0], ast.Constant) and 'CHECKSUM' in str(c.args[0].value):
+                    recv = unparse(_s13.expand_names(vg.node, st, c.func.value, chains=vchains, allow_calls=('rstrip', 'lstrip', 'strip')))
+                    rkeys.append((c.args[0].value, recv))
+                if isinstance(c, ast.Subscript) and isinstance(c.value, ast.Call) and isinstance(c.value.func, ast.Attribute) and c.value.func.attr == 'split' \
+                        and [unparse(a) for a in c.value.args] == ["'='"] and unparse(c.slice) == '1':
+                    rvals.append(unparse(_s13.expand_names(vg.node, st, c.value.func.value, chains=vchains, allow_calls=('rstrip', 'lstrip', 'strip'))))
+    stripped = re.compile(r"^\w+\.rstrip\(\)\.lstrip\('# '\)$|^\w+\.strip\(\)\.lstrip\('# '\)$")
+    rck = len(rkeys) == 1 and wck and rkeys[0][0] == wpre.lstrip('# ') and bool(stripped.match(rkeys[0][1])) and rvals == [rkeys[0][1]]
+    chk.ob('C13.d', 'checksum key written and read', ig.where, wck and rck, f"writer prefix {wpre!r}; reader tests {rkeys}, takes the value from {rvals}", key='seqvar::checksum-key')
     both_sha = [unparse(c.args[0]) for c in G.find_calls(ig.node, 'check_sha512')] + [unparse(c.args[0]) for c in G.find_calls(vg.node, 'check_sha512')]
     chk.ob('C13.d', 'both sides hash the raw GVF bytes with check_sha512', ig.where, len(both_sha) == 2, f"sha calls {both_sha}", key='seqvar::checksum-fn')
     cfg = CFG(vg.node)
